@@ -94,7 +94,7 @@ Fixpoint shared_chain (c : gcircuit) (l : list gedge) : bool :=
   | e :: l' => existsb (same_chain c e) l' || shared_chain c l'
   end.
 (* model switch for fixes/proposed_fix_C11_scalar_chain.diff (false = the code as it is): a scalar source variable is broadcast *)
-Definition fixed_scalar_chain : bool := false.
+Definition fixed_scalar_chain : bool := true.
 Definition gcrashes (c : gcircuit) : bool :=
   negb fixed_scalar_chain && gvec c && existsb (fun e => let g := gkey c (gsrc e) in
                               gadd_delay c g && Nat.eqb (units c g) 1 && shared_chain c (ggroup c g)) (gedges c).
